@@ -285,6 +285,57 @@ def name_cases(rng, n):
     return out
 
 
+def world_correspondence(ctx, rng, n):
+    """the model's file-tree step (Reader.writer_run: serialise, then set the target; append reads the target only) against
+    the directory the implementation leaves behind: every file, byte for byte (float literals re-spelled on both sides)"""
+    import shutil
+
+    from harness.props import c16
+    dictIO = native.dictio()
+    for i in range(n):
+        fmt = "foam" if i % 3 == 2 else "native"
+        tmp = native.scratch_dir("c13w_")
+        try:
+            target = tmp / ("target" + c16.EXT[fmt])
+            by = {}
+            for j in range(rng.randrange(0, 3)):
+                nm = f"bystander{j}" + rng.choice(["", ".foam", ".txt"])
+                by[str(tmp / nm)] = rng.choice(["k 1;\n", "", "free text, not a dict {\n", "a  'x';\n// c\n"])
+            for pth, txt in by.items():
+                Path(pth).write_text(txt)
+            ops = []
+            for _ in range(rng.randrange(1, 5)):
+                ops.append((rng.choice([True, True, False]), c16.small_tree(rng, fmt=fmt)))
+            ok = True
+            for ap, d in ops:
+                try:
+                    dictIO.DictWriter.write(copy.deepcopy(d), target, mode="a" if ap else "w")
+                except Exception:  # noqa: BLE001
+                    ok = False
+                    break
+            if not ok:
+                continue
+            impl = {str(q): q.read_text() for q in sorted(tmp.iterdir()) if q.is_file()}
+            line = (f"writer_run {wire.enc_bool(fmt == 'foam')} {wire.enc_str(str(target))} "
+                    + wire.enc_list(sorted(by.items()), lambda kv: wire.enc_str(kv[0]) + " " + wire.enc_str(kv[1])) + " "
+                    + wire.enc_list(ops, lambda o: wire.enc_bool(o[0]) + " " + wire.enc_tree(native.normalise(o[1]))))
+            ml = wire.run_model([line])[0]
+            ctx.corr_compared += 1
+            try:
+                r = wire.Reader(ml)
+                model = dict(r.list(lambda: (r.str(), r.str())))
+            except Exception:  # noqa: BLE001
+                model = {"<unparsed>": ml[:300]}
+            canon = lambda w: {k: c16._canon_float_text(v) for k, v in w.items()}  # noqa: E731
+            if canon(model) != canon(impl):
+                bad = sorted(k for k in set(model) | set(impl) if canon(model).get(k) != canon(impl).get(k))
+                ctx.disagree("writer_run (file tree after a write sequence)", {"op": "world", "fmt": fmt, "ops": ops, "bystanders": sorted(by.values())},
+                             {k: model.get(k, "<absent>")[:400] for k in bad[:2]}, {k: impl.get(k, "<absent>")[:400] for k in bad[:2]})
+            ctx.classes["world"] += 1
+        finally:
+            shutil.rmtree(tmp, ignore_errors=True)
+
+
 def run(ctx):
     rng = ctx.rng
     dictIO = native.dictio()
@@ -338,6 +389,7 @@ def run(ctx):
             if len(ctx.disagreements) < 20:
                 ctx.disagree("create_target_file_name", c, wire.Reader(ml).str() if ml.startswith("s") else ml, wire.uncps(il[1:]) if il.startswith("s") else il)
         ctx.count(("n", repr(c)), True, "name")
+    world_correspondence(ctx, rng, ctx.n(60, 1200))
     for k in ("read", "write", "parse", "fail", "tostring", "name"):
         if ctx.classes[k] == 0:
             raise RuntimeError(f"generator starved: {k}")
